@@ -77,7 +77,7 @@ class C18(Prop):
     assumptions = ["random.random() is i.i.d. uniform on [0,1) (assumed; the check injects the draws)",
                    "networkx connected_components / Graph.copy / remove_edges_from set-level semantics (re-defined in Model/Graph.lean)"]
     model_scope = "modelled: tools/bond_percolate.py in full"
-    budgets = {"quick": 400, "thorough": 6000}
+    budgets = {"quick": 400, "thorough": 20000}
     search_budget = {"quick": 1500, "thorough": 10000}
 
     def gen(self, rng, i, tier):
